@@ -8,6 +8,7 @@ from common import Failure, q, coq_list
 ID = "C15"
 GEN = ["gen_jackknife", "gen_jackknife_methods"]
 EXTRA_PROPERTY_FILES = ["SrcJackknife"]     # Jackknife.py method bodies regenerated and proved equal to Model/Pool.v
+SOURCE_TIE_NOTE = 'see LEVEL_NOTE (gen_jackknife_methods, Properties/SrcJackknife.v, 19 theorems)'
 ALLOWED_AXIOMS = C.STD_REAL_AXIOMS
 MODEL_INDEPENDENT_OF_PROOFS = True      # Model/Pool.v contains no proofs
 TRUSTED = [
